@@ -321,6 +321,12 @@ def formatArrs (p : Pool) (v : Int) : List (Ptr × Nat) → Pool
   | [] => p
   | (q, n) :: rest => formatArrs (writeArr p q (List.replicate n v)) v rest
 
+/-- `MemoryPool::copy(dest, src, n)` for each pair of arrays, in order: the contents are written INTO the existing
+    arrays of the target (no allocation, no counter changes) -/
+def copyArrs (p : Pool) : List (Ptr × Ptr × Nat) → Pool
+  | [] => p
+  | (d, q, n) :: rest => copyArrs (if d = q then p else writeArr p d (readArr p q n)) rest
+
 /-- the whole model state: 8 container slots, 4 layout slots, the pool -/
 structure State where
   pool : Pool
@@ -353,6 +359,7 @@ inductive Op where
   | mlay (a l kind dt : Nat) (fill : Int)
   | ldrop (l : Nat)
   | mk (a kind dt it n : Nat) (v : Int)
+  | copy (a b full : Nat)
 deriving Repr
 
 /-- `SparseMatrixBanded` constructor: number of used elements for `rows = cols = r`, offsets `r-1+j` -/
@@ -579,6 +586,22 @@ def step (s : State) (op : Op) : Except Abort State :=
       .ok ({ s with pool := p2 }.setSlot a
         (some { Cont.empty kind dt it [n + 3, n, n, n + 3, 1] with
                   elems := [qv], elemsSize := [len], inds := [qi], indsSize := [n] }))
+  | .copy a b full =>
+    -- `a.copy(b, full)` = `Container::_copy_content`: self-copy is a no-op; the array counts and sizes must agree
+    -- (assertions); the contents (with `full` also the index arrays and the scalars) are copied IN PLACE
+    match s.slot a, s.slot b with
+    | some ca, some cb =>
+      if ca.kind != cb.kind || ca.dt != cb.dt || ca.it != cb.it || ca.kind ≥ 7 then .error .badop
+      else if a = b then .ok s
+      else if ca.elems.length != cb.elems.length || ca.inds.length != cb.inds.length
+              || ca.sidx.length != cb.sidx.length then .error .abort
+      else if (full != 0 && ca.indsSize != cb.indsSize) || ca.elemsSize != cb.elemsSize then .error .abort
+      else
+        let ip := if full != 0 then (ca.inds.zip (cb.inds.zip ca.indsSize)) else []
+        let ep := ca.elems.zip (cb.elems.zip ca.elemsSize)
+        .ok ({ s with pool := copyArrs (copyArrs s.pool ip) ep }.setSlot a
+              (some (if full != 0 then { ca with sidx := cb.sidx } else ca)))
+    | _, _ => .error .badop
   | .ldrop l =>
     match s.lay l with
     | none => .error .badop
